@@ -2,7 +2,7 @@
 From Coq Require Import List Arith Bool Lia.
 From RW Require Import Conc.Sys Conc.SysFacts Conc.Close Conc.ListX Conc.CloseInv Conc.CloseInv2 Conc.CloseFacts
      Conc.CloseK Conc.CloseSafe Conc.CloseSafeStep Conc.CloseStep1 Conc.CloseFrames Conc.CloseFrames2
-     Conc.CloseStepInv Conc.CloseStepThr Conc.CloseStepOwn Conc.CloseReach.
+     Conc.CloseStepInv Conc.CloseStepThr Conc.CloseStepOwn Conc.CloseReach Conc.CloseCount.
 Import ListNotations.
 
 Lemma sum_upd_same {A} (f : A -> nat) l i a b :
@@ -60,6 +60,21 @@ Proof.
   - intros x L. unfold getst; cbn. now rewrite app_nth1 by exact L.
   - unfold getst; cbn. rewrite app_nth2 by lia. now rewrite Nat.sub_diag.
   - intros x. cbn. rewrite sum_app. cbn. lia.
+Qed.
+
+Lemma own_upd_st g z (f : st -> st) h :
+  z < length (g_states g) ->
+  (forall st0, s_open (f st0) = s_open st0) -> (forall st0, s_segs (f st0) = s_segs st0) ->
+  let g' := upd_st g z (f (getst g z)) in
+  live g' h = live g h /\
+  sum (fun st0 => fin_cnt (s_fin st0) h) (g_states g') + fin_cnt (s_fin (getst g z)) h =
+  sum (fun st0 => fin_cnt (s_fin st0) h) (g_states g) + fin_cnt (s_fin (f (getst g z))) h.
+Proof.
+  intros L Ho Hs. cbn zeta. split.
+  - unfold live. cbn [g_cur upd_st set_states]. rewrite getst_upd_st.
+    destruct ((z =? g_cur g) && (z <? length (g_states g))) eqn:B; [|reflexivity].
+    apply andb_true_iff in B. destruct B as [B _]. apply Nat.eqb_eq in B. subst. now rewrite Ho, Hs.
+  - cbn. apply (sum_upd (fun st0 => fin_cnt (s_fin st0) h) (g_states g) z (getst g z)). now apply nth_error_getst.
 Qed.
 
 (* the reference-count equation of one state *)
@@ -270,5 +285,220 @@ Section P2.
         pose proof (JR x0 L0) as Q. unfold refeq in Q. cbn [fsucc s_fin st_retire st_fin] in Hf. lia.
       + intros x0 L0. rewrite Hl in L0. destruct (JO x0 L0) as [R1 R2]. specialize (HS x0). specialize (Hf x0). rewrite ?F0 in Hf. rewrite H1, H2 in HS.
         cbn [fsucc s_fin st_retire st_fin] in Hf. split; lia.
+  Qed.
+
+  Lemma hpend_other g g' thu h :
+    frame g g' ->
+    (forall x e, t_pc thu = PCSwapped x e -> x < length (g_states g)) ->
+    hpend g' thu h = hpend g thu h.
+  Proof.
+    intros Fr Hx. unfold hpend. destruct (t_pc thu) eqn:P; try reflexivity.
+    rewrite (f_segs _ _ Fr x (Hx x e eq_refl)). reflexivity.
+  Qed.
+
+  Lemma own_step s t s' :
+    Full w r s -> Inv2 orig s -> step s t = Some s' ->
+    forall h, (h < length (g_hnds (sh s')) -> owners (sh s') (ths s') h + h_closes (geth (sh s') h) = 1) /\
+              (length (g_hnds (sh s')) <= h -> owners (sh s') (ths s') h = 0).
+  Proof.
+    intros [SA I] J H. destruct (step_decomp _ _ _ H) as (th & g' & th' & E & F & ->). cbn [sh ths].
+    pose proof (no_panic w r _ _ _ _ _ SA I E F) as NP.
+    pose proof (i_thr _ _ _ I _ _ E) as TF. pose proof (a_thr _ SA _ _ E) as FB. pose proof (j_thr _ _ J _ _ E) as TJ.
+    pose proof (a_last _ SA) as La.
+    destruct (core_step s t th g' th' SA E F NP) as (Fr & _).
+    assert (HP : forall h, sum (fun thu => hpend g' thu h) (upd (ths s) t th') + hpend g' th h =
+                           sum (fun thu => hpend (sh s) thu h) (ths s) + hpend g' th' h).
+    { intros h. rewrite (sum_upd (fun thu => hpend g' thu h) (ths s) t th th' E). f_equal.
+      apply sum_ext. intros thu Hi. apply In_nth_error in Hi. destruct Hi as (u & Eu).
+      apply hpend_other; [exact Fr|]. intros x e Pu.
+      pose proof (i_thr _ _ _ I _ _ Eu) as TFu. unfold th_facts1 in TFu. rewrite Pu in TFu. destruct TFu as (Xc & _). lia. }
+    pose proof (j_own _ _ J) as JW. unfold owners in *.
+    destruct (special2 (t_pc th)) eqn:Sp.
+    2: { (* plain step *)
+      destruct (frame2_plain _ _ _ _ _ F NP Sp) as [Qs Qc Ql Qcl _ _ Qh].
+      intros h. specialize (HP h). destruct (Qh h) as [Q1 Q2]. unfold hpend in HP at 2. fold (hpend g' th h) in HP.
+      assert (Q3 : hpend g' th h = 0).
+      { unfold hpend in *. destruct (t_pc th); try reflexivity; discriminate Sp. }
+      unfold live, getst in *. rewrite Qs, Qc, Ql, Qcl. rewrite Q1, Q3 in HP. destruct (JW h) as [W1 W2].
+      split; intros L; [specialize (W1 L) | specialize (W2 L)]; lia. }
+    unfold th_facts1 in TF. unfold factsB in FB. unfold th_facts2 in TJ.
+    destruct (t_pc th) eqn:P; try discriminate Sp;
+      unfold step_thread in F; rewrite P in F; crack F;
+      try (match goal with Q : pm3_tx ?g ?o ?y ?k = (?a, ?b) |- _ =>
+             pose proof (pm3_count g o y k) as PC; rewrite Q in PC end);
+      inversion F; subst g' th'; clear F.
+    all: try (exfalso; apply NP; reflexivity).
+    - (* acquire *)
+      intros h. destruct (own_upd_st (sh s) x (fun s0 => st_ref s0 (S (s_ref (getst (sh s) x)))) h ltac:(exact FB) ltac:(reflexivity) ltac:(reflexivity)) as (Hlive & Hfin).
+      cbn beta in Hlive, Hfin. specialize (HP h).
+      assert (P1 : hpend (upd_st (sh s) x (st_ref (getst (sh s) x) (S (s_ref (getst (sh s) x))))) th h = 0) by (unfold hpend; rewrite P; reflexivity).
+      assert (P2 : hpend (upd_st (sh s) x (st_ref (getst (sh s) x) (S (s_ref (getst (sh s) x))))) (setpc th (PAcq x)) h = 0) by (reflexivity).
+      rewrite P1, P2 in HP. destruct (JW h) as [W1 W2]. rewrite Hlive.
+      
+      change (g_hnds (upd_st (sh s) x (st_ref (getst (sh s) x) (S (s_ref (getst (sh s) x)))))) with (g_hnds (sh s)).
+      change (geth (upd_st (sh s) x (st_ref (getst (sh s) x) (S (s_ref (getst (sh s) x))))) h) with (geth (sh s) h).
+      cbn [fin_cnt s_fin st_ref st_fin st_retire] in Hfin.
+      split; intros L; [specialize (W1 L) | specialize (W2 L)]; lia.
+    - (* mutateStateLocked acquire *)
+      assert (Ly : y < length (g_states (sh s))) by (destruct TF as (Yc & _); lia).
+      intros h. destruct (own_upd_st (sh s) y (fun s0 => st_ref s0 (S (s_ref (getst (sh s) y)))) h ltac:(exact Ly) ltac:(reflexivity) ltac:(reflexivity)) as (Hlive & Hfin).
+      cbn beta in Hlive, Hfin. specialize (HP h).
+      assert (P1 : hpend (upd_st (sh s) y (st_ref (getst (sh s) y) (S (s_ref (getst (sh s) y))))) th h = 0) by (unfold hpend; rewrite P; reflexivity).
+      assert (P2 : hpend (upd_st (sh s) y (st_ref (getst (sh s) y) (S (s_ref (getst (sh s) y))))) (setpc th (PM2 y k)) h = 0) by (reflexivity).
+      rewrite P1, P2 in HP. destruct (JW h) as [W1 W2]. rewrite Hlive.
+      
+      change (g_hnds (upd_st (sh s) y (st_ref (getst (sh s) y) (S (s_ref (getst (sh s) y)))))) with (g_hnds (sh s)).
+      change (geth (upd_st (sh s) y (st_ref (getst (sh s) y) (S (s_ref (getst (sh s) y))))) h) with (geth (sh s) h).
+      cbn [fin_cnt s_fin st_ref st_fin st_retire] in Hfin.
+      split; intros L; [specialize (W1 L) | specialize (W2 L)]; lia.
+    - (* publish the new state *)
+      destruct TF as (Yc & Oy & _). destruct PC as (segs & mn & nh & Qs & Qc). cbn [fst snd] in Qs, Qc. subst s0.
+      change (g_cur (publish (set_hnds (sh s) (g_hnds (sh s) ++ nh)) (mk_state segs mn))) with (length (g_states (sh s))) in *.
+      intros h. specialize (HP h). destruct (JW h) as [W1 W2].
+      assert (P1 : hpend (publish (set_hnds (sh s) (g_hnds (sh s) ++ nh)) (mk_state segs mn)) th h = 0)
+        by (unfold hpend; rewrite P; reflexivity).
+      assert (P2 : hpend (publish (set_hnds (sh s) (g_hnds (sh s) ++ nh)) (mk_state segs mn))
+                         (setpc th (PM4 y (FSet l (length (g_states (sh s)))) k)) h = cnt h l) by reflexivity.
+      rewrite P1, P2 in HP.
+      assert (Lv' : live (publish (set_hnds (sh s) (g_hnds (sh s) ++ nh)) (mk_state segs mn)) h = cnt h segs).
+      { unfold live. rewrite getst_publish. reflexivity. }
+      assert (Lv : live (sh s) h = cnt h (s_segs (getst (sh s) y))) by (unfold live; rewrite <- Yc, Oy; reflexivity).
+      rewrite Lv'. rewrite Lv in W1, W2.
+      cbn [g_states g_hnds publish set_cur set_hnds]. rewrite sum_app. cbn [sum fin_cnt s_fin mk_state].
+      unfold geth. cbn [g_hnds publish set_cur set_hnds]. rewrite app_length.
+      destruct Qc as [(-> & Qc)|(b & -> & Qc)]; specialize (Qc h); cbn [length].
+      + rewrite app_nil_r in *. split; intros L; [specialize (W1 ltac:(lia)) | specialize (W2 ltac:(lia))]; unfold geth in *; lia.
+      + destruct (Nat.eqb_spec (length (g_hnds (sh s))) h) as [Z|Z]; cbn [b2n] in Qc.
+        * subst h. specialize (W2 (Nat.le_refl _)). split; intros L; [|lia].
+          rewrite app_nth2 by lia. rewrite Nat.sub_diag. cbn. lia.
+        * split; intros L.
+          -- rewrite app_nth1 by lia. specialize (W1 ltac:(lia)). unfold geth in W1. lia.
+          -- specialize (W2 ltac:(lia)). lia.
+    - (* retire: store the finalizer *)
+      assert (Ly : y < length (g_states (sh s))) by (destruct TF as (Yc & _); lia).
+      destruct TJ as (hz & Qf & Nf & _). subst f.
+      intros h. destruct (own_upd_st (sh s) y (fun s0 => st_retire s0 (FSet hz (S y))) h ltac:(exact Ly) ltac:(reflexivity) ltac:(reflexivity)) as (Hlive & Hfin).
+      cbn beta in Hlive, Hfin. specialize (HP h).
+      assert (P1 : hpend (upd_st (sh s) y (st_retire (getst (sh s) y) (FSet hz (S y)))) th h = cnt h hz) by (unfold hpend; rewrite P; reflexivity).
+      assert (P2 : hpend (upd_st (sh s) y (st_retire (getst (sh s) y) (FSet hz (S y)))) (setpc th (PRel y (Ok 0) k)) h = 0) by (reflexivity).
+      rewrite P1, P2 in HP. destruct (JW h) as [W1 W2]. rewrite Hlive.
+      assert (F0 : fin_cnt (s_fin (getst (sh s) y)) h = 0) by (destruct (s_fin (getst (sh s) y)); try discriminate; reflexivity). rewrite F0 in Hfin.
+      change (g_hnds (upd_st (sh s) y (st_retire (getst (sh s) y) (FSet hz (S y))))) with (g_hnds (sh s)).
+      change (geth (upd_st (sh s) y (st_retire (getst (sh s) y) (FSet hz (S y)))) h) with (geth (sh s) h).
+      cbn [fin_cnt s_fin st_ref st_fin st_retire] in Hfin.
+      split; intros L; [specialize (W1 L) | specialize (W2 L)]; lia.
+    - (* release, last reference *)
+      destruct TJ as (Lx & _).
+      intros h. destruct (own_upd_st (sh s) x (fun s0 => st_ref s0 (s_ref (getst (sh s) x) - 1)) h ltac:(exact Lx) ltac:(reflexivity) ltac:(reflexivity)) as (Hlive & Hfin).
+      cbn beta in Hlive, Hfin. specialize (HP h).
+      assert (P1 : hpend (upd_st (sh s) x (st_ref (getst (sh s) x) (s_ref (getst (sh s) x) - 1))) th h = 0) by (unfold hpend; rewrite P; reflexivity).
+      assert (P2 : hpend (upd_st (sh s) x (st_ref (getst (sh s) x) (s_ref (getst (sh s) x) - 1))) (setpc th (PLast x r0 k)) h = 0) by (reflexivity).
+      rewrite P1, P2 in HP. destruct (JW h) as [W1 W2]. rewrite Hlive.
+      
+      change (g_hnds (upd_st (sh s) x (st_ref (getst (sh s) x) (s_ref (getst (sh s) x) - 1)))) with (g_hnds (sh s)).
+      change (geth (upd_st (sh s) x (st_ref (getst (sh s) x) (s_ref (getst (sh s) x) - 1))) h) with (geth (sh s) h).
+      cbn [fin_cnt s_fin st_ref st_fin st_retire] in Hfin.
+      split; intros L; [specialize (W1 L) | specialize (W2 L)]; lia.
+    - (* release *)
+      destruct TJ as (Lx & _).
+      intros h. destruct (own_upd_st (sh s) x (fun s0 => st_ref s0 (s_ref (getst (sh s) x) - 1)) h ltac:(exact Lx) ltac:(reflexivity) ltac:(reflexivity)) as (Hlive & Hfin).
+      cbn beta in Hlive, Hfin. specialize (HP h).
+      assert (P1 : hpend (upd_st (sh s) x (st_ref (getst (sh s) x) (s_ref (getst (sh s) x) - 1))) th h = 0) by (unfold hpend; rewrite P; reflexivity).
+      assert (P2 : hpend (upd_st (sh s) x (st_ref (getst (sh s) x) (s_ref (getst (sh s) x) - 1))) (continue th r0 k) h = 0) by (destruct k; reflexivity).
+      rewrite P1, P2 in HP. destruct (JW h) as [W1 W2]. rewrite Hlive.
+      
+      change (g_hnds (upd_st (sh s) x (st_ref (getst (sh s) x) (s_ref (getst (sh s) x) - 1)))) with (g_hnds (sh s)).
+      change (geth (upd_st (sh s) x (st_ref (getst (sh s) x) (s_ref (getst (sh s) x) - 1))) h) with (geth (sh s) h).
+      cbn [fin_cnt s_fin st_ref st_fin st_retire] in Hfin.
+      split; intros L; [specialize (W1 L) | specialize (W2 L)]; lia.
+    - (* swap: no finalizer *)
+      destruct TJ as (_ & Lx & _).
+      intros h. destruct (own_upd_st (sh s) x (fun s0 => st_fin s0 FNil) h ltac:(exact Lx) ltac:(reflexivity) ltac:(reflexivity)) as (Hlive & Hfin).
+      cbn beta in Hlive, Hfin. specialize (HP h).
+      assert (P1 : hpend (upd_st (sh s) x (st_fin (getst (sh s) x) FNil)) th h = 0) by (unfold hpend; rewrite P; reflexivity).
+      assert (P2 : hpend (upd_st (sh s) x (st_fin (getst (sh s) x) FNil)) (continue th r0 k) h = 0) by (destruct k; reflexivity).
+      rewrite P1, P2 in HP. destruct (JW h) as [W1 W2]. rewrite Hlive.
+      rewrite Heqf in Hfin.
+      change (g_hnds (upd_st (sh s) x (st_fin (getst (sh s) x) FNil))) with (g_hnds (sh s)).
+      change (geth (upd_st (sh s) x (st_fin (getst (sh s) x) FNil)) h) with (geth (sh s) h).
+      cbn [fin_cnt s_fin st_ref st_fin st_retire] in Hfin.
+      split; intros L; [specialize (W1 L) | specialize (W2 L)]; lia.
+    - (* swap: no finalizer *)
+      destruct TJ as (_ & Lx & _).
+      intros h. destruct (own_upd_st (sh s) x (fun s0 => st_fin s0 FNil) h ltac:(exact Lx) ltac:(reflexivity) ltac:(reflexivity)) as (Hlive & Hfin).
+      cbn beta in Hlive, Hfin. specialize (HP h).
+      assert (P1 : hpend (upd_st (sh s) x (st_fin (getst (sh s) x) FNil)) th h = 0) by (unfold hpend; rewrite P; reflexivity).
+      assert (P2 : hpend (upd_st (sh s) x (st_fin (getst (sh s) x) FNil)) (continue th r0 k) h = 0) by (destruct k; reflexivity).
+      rewrite P1, P2 in HP. destruct (JW h) as [W1 W2]. rewrite Hlive.
+      rewrite Heqf in Hfin.
+      change (g_hnds (upd_st (sh s) x (st_fin (getst (sh s) x) FNil))) with (g_hnds (sh s)).
+      change (geth (upd_st (sh s) x (st_fin (getst (sh s) x) FNil)) h) with (geth (sh s) h).
+      cbn [fin_cnt s_fin st_ref st_fin st_retire] in Hfin.
+      split; intros L; [specialize (W1 L) | specialize (W2 L)]; lia.
+    - (* swap the finalizer out *)
+      destruct TJ as (_ & Lx & _).
+      intros h. destruct (own_upd_st (sh s) x (fun s0 => st_fin s0 FNil) h ltac:(exact Lx) ltac:(reflexivity) ltac:(reflexivity)) as (Hlive & Hfin).
+      cbn beta in Hlive, Hfin. specialize (HP h).
+      assert (P1 : hpend (upd_st (sh s) x (st_fin (getst (sh s) x) FNil)) th h = 0) by (unfold hpend; rewrite P; reflexivity).
+      assert (P2 : hpend (upd_st (sh s) x (st_fin (getst (sh s) x) FNil)) (setpc th (PRun hs succ r0 k)) h = cnt h hs) by (reflexivity).
+      rewrite P1, P2 in HP. destruct (JW h) as [W1 W2]. rewrite Hlive.
+      rewrite Heqf in Hfin.
+      change (g_hnds (upd_st (sh s) x (st_fin (getst (sh s) x) FNil))) with (g_hnds (sh s)).
+      change (geth (upd_st (sh s) x (st_fin (getst (sh s) x) FNil)) h) with (geth (sh s) h).
+      cbn [fin_cnt s_fin st_ref st_fin st_retire] in Hfin.
+      split; intros L; [specialize (W1 L) | specialize (W2 L)]; lia.
+    - (* run the finalizer *)
+      intros h. specialize (HP h). destruct (JW h) as [W1 W2].
+      assert (P1 : hpend (set_hnds (sh s) (close_all (g_hnds (sh s)) hs)) th h = cnt h hs) by (unfold hpend; rewrite P; reflexivity).
+      assert (P2 : hpend (set_hnds (sh s) (close_all (g_hnds (sh s)) hs)) (setpc th (PRel sc r0 k)) h = 0) by reflexivity.
+      rewrite P1, P2 in HP.
+      change (live (set_hnds (sh s) (close_all (g_hnds (sh s)) hs)) h) with (live (sh s) h).
+      cbn [g_states g_hnds set_hnds]. rewrite close_all_length. unfold geth. cbn [g_hnds set_hnds].
+      split; intros L.
+      + rewrite close_all_closes by exact L. specialize (W1 L). unfold geth in W1. lia.
+      + specialize (W2 L). lia.
+    - (* Close acquires *)
+      assert (Lx : x < length (g_states (sh s))) by lia.
+      intros h. destruct (own_upd_st (sh s) x (fun s0 => st_ref s0 (S (s_ref (getst (sh s) x)))) h ltac:(exact Lx) ltac:(reflexivity) ltac:(reflexivity)) as (Hlive & Hfin).
+      cbn beta in Hlive, Hfin. specialize (HP h).
+      assert (P1 : hpend (upd_st (sh s) x (st_ref (getst (sh s) x) (S (s_ref (getst (sh s) x))))) th h = 0) by (unfold hpend; rewrite P; reflexivity).
+      assert (P2 : hpend (upd_st (sh s) x (st_ref (getst (sh s) x) (S (s_ref (getst (sh s) x))))) (setpc th (PC6 x)) h = 0) by (reflexivity).
+      rewrite P1, P2 in HP. destruct (JW h) as [W1 W2]. rewrite Hlive.
+      
+      change (g_hnds (upd_st (sh s) x (st_ref (getst (sh s) x) (S (s_ref (getst (sh s) x)))))) with (g_hnds (sh s)).
+      change (geth (upd_st (sh s) x (st_ref (getst (sh s) x) (S (s_ref (getst (sh s) x))))) h) with (geth (sh s) h).
+      cbn [fin_cnt s_fin st_ref st_fin st_retire] in Hfin.
+      split; intros L; [specialize (W1 L) | specialize (W2 L)]; lia.
+    - (* Close publishes the empty state *)
+      assert (Lx : x < length (g_states (sh s))) by lia.
+      assert (Ox : s_open (getst (sh s) x) = true).
+      { assert (A6 : 0 < cstage th) by (unfold cstage; rewrite P; lia).
+        destruct (K_active w r s t th I E A6) as [_ Kq]. unfold cstage in Kq. rewrite P in Kq.
+        pose proof (i_open _ _ _ I) as Io. rewrite Kq in Io. subst x. exact Io. }
+      intros h. specialize (HP h). destruct (JW h) as [W1 W2].
+      assert (P1 : hpend (publish (sh s) empty_state) th h = 0) by (unfold hpend; rewrite P; reflexivity).
+      assert (P2 : hpend (publish (sh s) empty_state) (setpc th (PCSwapped x (length (g_states (sh s))))) h =
+                   cnt h (s_segs (getst (sh s) x))).
+      { unfold hpend. cbn [t_pc setpc]. unfold getst, publish. cbn. now rewrite app_nth1 by exact Lx. }
+      rewrite P1, P2 in HP.
+      assert (Lv' : live (publish (sh s) empty_state) h = 0) by (unfold live; rewrite getst_publish; reflexivity).
+      assert (Lv : live (sh s) h = cnt h (s_segs (getst (sh s) x))) by (unfold live; subst x; rewrite Ox; reflexivity).
+      rewrite Lv'. rewrite Lv in W1, W2.
+      cbn [g_states g_hnds publish set_cur]. rewrite sum_app. cbn [sum fin_cnt s_fin empty_state].
+      change (geth (publish (sh s) empty_state) h) with (geth (sh s) h).
+      split; intros L; [specialize (W1 L) | specialize (W2 L)]; lia.
+    - (* Close retires the old state *)
+      assert (Lx : x < length (g_states (sh s))) by (destruct TF as (Xc & _); lia).
+      destruct TJ as (Nf & _).
+      intros h. destruct (own_upd_st (sh s) x (fun s0 => st_retire s0 (FSet (s_segs (getst (sh s) x)) e)) h ltac:(exact Lx) ltac:(reflexivity) ltac:(reflexivity)) as (Hlive & Hfin).
+      cbn beta in Hlive, Hfin. specialize (HP h).
+      assert (P1 : hpend (upd_st (sh s) x (st_retire (getst (sh s) x) (FSet (s_segs (getst (sh s) x)) e))) th h = cnt h (s_segs (getst (sh s) x))) by (unfold hpend; rewrite P; rewrite getst_upd_st, Nat.eqb_refl; destruct (x <? length (g_states (sh s))); reflexivity).
+      assert (P2 : hpend (upd_st (sh s) x (st_retire (getst (sh s) x) (FSet (s_segs (getst (sh s) x)) e))) (setpc th (PC8 x)) h = 0) by (reflexivity).
+      rewrite P1, P2 in HP. destruct (JW h) as [W1 W2]. rewrite Hlive.
+      assert (F0 : fin_cnt (s_fin (getst (sh s) x)) h = 0) by (destruct (s_fin (getst (sh s) x)); try discriminate; reflexivity). rewrite F0 in Hfin.
+      change (g_hnds (upd_st (sh s) x (st_retire (getst (sh s) x) (FSet (s_segs (getst (sh s) x)) e)))) with (g_hnds (sh s)).
+      change (geth (upd_st (sh s) x (st_retire (getst (sh s) x) (FSet (s_segs (getst (sh s) x)) e))) h) with (geth (sh s) h).
+      cbn [fin_cnt s_fin st_ref st_fin st_retire] in Hfin.
+      split; intros L; [specialize (W1 L) | specialize (W2 L)]; lia.
   Qed.
 End P2.
